@@ -17,7 +17,7 @@
    "ring": for every commutative ring with decidable equality, closed at Qc. *)
 From Coq Require Import Sorted.
 From Coq Require Import Permutation.
-From Amgcl Require Import Scalar QcInst Vec Crs Kernels KernelsProofs MatOps MatOpsProofs Dist DistProofs DistProofsB DistProofsT DistProofsP.
+From Amgcl Require Import Scalar QcInst Vec Crs Kernels KernelsProofs MatOps MatOpsProofs Cheby Dist DistProofs DistProofsB DistProofsT DistProofsP DistProofsG.
 Local Open Scope nat_scope.
 
 (* ------------------------------------------------------------------ *)
@@ -123,7 +123,7 @@ Print Assumptions C11_transpose_every_partition.
    remote_rows as a message exchange (the model Dist.dist_remote_rows directly reads the owner's row; compared
      with the implementation, and used inside the product model) ;
    copy between backends preserves local/remote parts and the pattern;
-   Gershgorin / power-method estimates (see C11_gershgorin_rank_local_refuted). *)
+   power-method spectral radius estimate (random start vector, square roots: only rank-consistency is checked). *)
 
 (* ------------------------------------------------------------------ *)
 Section Ring.
@@ -209,25 +209,76 @@ Proof. exact (C11_inner_product_every_partition QcS QcS_ring parts x y). Qed.
 Print Assumptions C11_inner_product_every_partition_Qc.
 
 (* ------------------------------------------------------------------ *)
-(* Collective scalar "Gershgorin estimate identical on all ranks and equal to the serial
-   value": the faithful model of distributed_matrix.hpp:1159-1188 (rank-local maximum, no
-   reduction) VIOLATES it.
-   FULL STATEMENT (refuted): forall A parts, psum parts = nrows A -> nrows A = ncols A ->
-     dist_gershgorin scale (split A parts parts) = dist_gershgorin_spec scale A (length parts).
-   Witness: A = [[1]], two ranks, partition [1;0]: the ranks report 1 and 0, the serial value
-   is 1.  Replayed on the implementation by bin/check C11 (known finding
-   F-C11-gershgorin-rank-local). *)
+(* Collective scalar: the Gershgorin spectral-radius estimate (spectral_radius<scale>(A, 0),
+   distributed_matrix.hpp:1159-1190,1307 after the /repo fixes ed6ca09 = Allreduce(MAX) and 18c5201 = `dia`
+   reset for every row) is IDENTICAL ON ALL RANKS AND EQUAL TO THE SERIAL VALUE (Cheby.gershgorin = the
+   serial kernel backend/builtin.hpp:790-817 on the assembled matrix): for every matrix, both values of
+   `scale` (rows without a stored diagonal entry, duplicate and unsorted entries included), every contiguous
+   partition [parts] of the rows (= of the columns; empty ranks included) and every assignment [lenss] of
+   contiguous row chunks to the OpenMP threads of every rank (threads without rows included).
+   Hypotheses: operator< is a strict total order (std::max), + is a commutative monoid (ring laws).
+   (No well-formedness of A is needed: an entry whose column is outside the rank's range is a remote
+   entry and is never the diagonal of a local row.) *)
+Theorem C11_gershgorin_every_partition (S : Scalar) :
+  (forall a : S, sltb a a = false) ->
+  (forall a b c : S, sltb a b = true -> sltb b c = true -> sltb a c = true) ->
+  (forall a b : S, sltb a b = false -> sltb b a = false -> a = b) ->
+  Sring S ->
+  forall (scale : bool) (lenss : list (list nat)) (A : crs S) (parts : list nat),
+  psum parts = nrows A ->
+  (forall r, r < length parts -> psize parts r <= psum (nth r lenss [])) ->
+  dist_gershgorin_thr scale lenss (split A parts parts) = repeat (gershgorin scale A) (length parts).
+Proof. exact (@dist_gershgorin_thr_split S). Qed.
+Print Assumptions C11_gershgorin_every_partition.
+
+(* one thread per rank (the configuration of the MPI correspondence runs with OMP_NUM_THREADS=1) *)
+Theorem C11_gershgorin_every_partition_one_thread (S : Scalar) :
+  (forall a : S, sltb a a = false) ->
+  (forall a b c : S, sltb a b = true -> sltb b c = true -> sltb a c = true) ->
+  (forall a b : S, sltb a b = false -> sltb b a = false -> a = b) ->
+  Sring S ->
+  forall (scale : bool) (A : crs S) (parts : list nat),
+  psum parts = nrows A ->
+  dist_gershgorin scale (split A parts parts) = repeat (gershgorin scale A) (length parts).
+Proof. exact (@dist_gershgorin_split S). Qed.
+Print Assumptions C11_gershgorin_every_partition_one_thread.
+
+Theorem C11_gershgorin_every_partition_Qc (scale : bool) (lenss : list (list nat)) (A : crs QcS) (parts : list nat) :
+  psum parts = nrows A ->
+  (forall r, r < length parts -> psize parts r <= psum (nth r lenss [])) ->
+  dist_gershgorin_thr scale lenss (split A parts parts) = repeat (gershgorin scale A) (length parts).
+Proof. exact (dist_gershgorin_thr_split_Qc scale lenss A parts). Qed.
+Print Assumptions C11_gershgorin_every_partition_Qc.
+
+Theorem C11_gershgorin_every_partition_one_thread_Qc (scale : bool) (A : crs QcS) (parts : list nat) :
+  psum parts = nrows A ->
+  dist_gershgorin scale (split A parts parts) = repeat (gershgorin scale A) (length parts).
+Proof. exact (dist_gershgorin_split_Qc scale A parts). Qed.
+Print Assumptions C11_gershgorin_every_partition_one_thread_Qc.
+
+(* Regression examples: what the code computed BEFORE the two fixes (Dist.old_dist_gershgorin; former
+   finding F-C11-gershgorin-rank-local, status fixed).
+   (1) no reduction: A = [[1]] on two ranks, partition [1;0]: the ranks reported 1 and 0.
+   (2) `dia` carried from row to row: A = [[1/2, .]; [1, .]] (row 1 has no diagonal entry), scale = true, one
+       rank: the old code scaled row 1 by the diagonal 1/2 of row 0 and reported max(1, 1*2) = 2; the serial and
+       the repaired distributed value is max(1, 1) = 1 for every partition. *)
 Definition vec_eqb {S : Scalar} (a b : vec S) : bool :=
   Nat.eqb (length a) (length b) && forallb (fun p => seqb (fst p) (snd p)) (combine a b).
 
-Theorem C11_gershgorin_rank_local_refuted :
-  exists (A : crs QcS) (parts : list nat) (scale : bool),
-    wf A = true /\ psum parts = nrows A /\ nrows A = ncols A /\
-    vec_eqb (dist_gershgorin scale (split A parts parts)) (dist_gershgorin_spec scale A (length parts)) = false.
-Proof.
-  exists (mkCrs 1 [[(0, qc 1 1)]]), [1; 0], false. vm_compute. repeat split; reflexivity.
-Qed.
-Print Assumptions C11_gershgorin_rank_local_refuted.
+Example C11_old_gershgorin_rank_local :
+  let A : crs QcS := mkCrs 1 [[(0, qc 1 1)]] in
+  vec_eqb (old_dist_gershgorin false (split A [1; 0] [1; 0])) [qc 1 1; qc 0 1] = true /\
+  vec_eqb (dist_gershgorin false (split A [1; 0] [1; 0])) [qc 1 1; qc 1 1] = true /\
+  vec_eqb [gershgorin false A] [qc 1 1] = true.
+Proof. vm_compute. repeat split; reflexivity. Qed.
+
+Example C11_old_gershgorin_stale_dia :
+  let A : crs QcS := mkCrs 2 [[(0, qc 1 2)]; [(0, qc 1 1)]] in
+  vec_eqb (old_dist_gershgorin true (split A [2] [2])) [qc 2 1] = true /\
+  vec_eqb (dist_gershgorin true (split A [2] [2])) [qc 1 1] = true /\
+  vec_eqb (dist_gershgorin true (split A [1; 1] [1; 1])) [qc 1 1; qc 1 1] = true /\
+  vec_eqb [gershgorin true A] [qc 1 1] = true.
+Proof. vm_compute. repeat split; reflexivity. Qed.
 
 (* ------------------------------------------------------------------ *)
 (* non-vacuity: a concrete 3-rank world with an empty rank meets all hypotheses, has a
